@@ -18,6 +18,12 @@ def sym_text(s):
     return s
 
 
+def num_text(spec, t):
+    """the numeral of token t's explicit number as written in the file: decimal, possibly zero-padded (`007`, `0300`)"""
+    n = spec["nums"][t]
+    return "0" * spec.get("num_pad", {}).get(t, 0) + str(n)
+
+
 def render(spec, prologue="", epilogue="", union=None, actions=None, tags=None):
     out = []
     if prologue:
@@ -35,12 +41,12 @@ def render(spec, prologue="", epilogue="", union=None, actions=None, tags=None):
         # several tokens on one %token line (they share the line's tag); a number belongs to the token before it
         for grp in spec["token_groups"]:
             tg = "<%s> " % tags[grp[0]] if grp[0] in tags else ""
-            out.append("%%token %s%s\n" % (tg, " ".join(t + ((" %d" % spec["nums"][t]) if spec.get("nums", {}).get(t) else "") for t in grp)))
+            out.append("%%token %s%s\n" % (tg, " ".join(t + ((" " + num_text(spec, t)) if spec.get("nums", {}).get(t) else "") for t in grp)))
     else:
         for t in spec["tokens"]:
             num = spec.get("nums", {}).get(t)
             tg = "<%s> " % tags[t] if (t in tags and t not in late) else ""
-            out.append("%%token %s%s%s\n" % (tg, t, (" %d" % num) if num else ""))
+            out.append("%%token %s%s%s\n" % (tg, t, (" " + num_text(spec, t)) if num else ""))
     if spec.get("eof_token"):
         out.append("%token EOF -1\n")        # the documented alias of the end marker (examples/e.y); not a grammar symbol
     for t, num in spec.get("redecl", []):
@@ -75,6 +81,33 @@ def render(spec, prologue="", epilogue="", union=None, actions=None, tags=None):
     out.append(" ;\n%%\n")
     out.append(epilogue)
     return "".join(out)
+
+
+def glue_comments(src, rng, p=0.15, before="_{'"):
+    """the same file with some block comments written DIRECTLY in front of a token of the rules section (no blank
+    between `*/` and an identifier, a literal or the `{` of an action): layout only, nothing may change"""
+    a = src.find("%%")
+    b = src.rfind("%%")
+    if a < 0 or b <= a:
+        return src
+    mid = src[a + 2:b]
+    out = []
+    depth = 0          # inside an action `{ … }` nothing is touched (its text is the user's program)
+    quote = False      # nor inside a character literal
+    for i, ch in enumerate(mid):
+        if depth == 0 and not quote and i > 0 and mid[i - 1] in " \t\n" and ((ch.isalpha() and "_" in before) or ch in before) and rng.random() < p:
+            out.append("/*c*/" if rng.random() < 0.7 else "/* a b */")
+        out.append(ch)
+        if quote:
+            if ch == "'" and not (i >= 2 and mid[i - 1] == "\\" and mid[i - 2] == "'"):
+                quote = False
+        elif depth == 0 and ch == "'":
+            quote = True
+        elif ch == "{":
+            depth += 1
+        elif ch == "}":
+            depth = max(0, depth - 1)
+    return src[:a + 2] + "".join(out) + src[b:]
 
 
 def group_rules(rules):
@@ -307,6 +340,13 @@ CORPUS = {
     # a rule with 257 right-hand-side symbols (dot positions beyond 255)
     "long_rule_257": "%token T X Y Z\n%start S\n%%\nS : Z | " + "T " * 256 + "B ;\nB : X | Y ;\n%%\n",
     "long_rule_257b": "%token T X Y\n%start S\n%%\nS : " + "T " * 256 + "B ;\nB : X | Y ;\n%%\n",
+    # the same sub-phrase after a short and after a longer prefix: the later, higher-numbered state of the longer prefix has a
+    # nonterminal transition that leads BACK to a lower-numbered state; with a nullable head the reduction happens there
+    "suffix_after_two_prefixes": "%token A B C X\n%start S\n%%\nS : A T | B B T ;\nT : O C ;\nO : | X ;\n%%\n",
+    "suffix_after_three_prefixes": "%token A B C D X Y\n%start S\n%%\nS : A T | B B T D | B A B T ;\nT : O P C ;\nO : | X ;\nP : | Y ;\n%%\n",
+    # one state holds BOTH a conflict precedence cannot decide ('?' has none) and conflicts where precedence must choose the
+    # reduction: the order in which the lookaheads of a state are visited must not matter
+    "mixed_conflicts": "%token NUM\n%left '+' '-'\n%left '*'\n%start e\n%%\ne : e '?' e | e '+' e | e '-' e | e '*' e | NUM ;\n%%\n",
     # NQLALR-separating family (Bermudez/Logothetis style)
     "nqlalr": "%token A B C D G\n%start S\n%%\nS : A X C | A Y D | B X D | B Y C | G X G ;\nX : Z ;\nY : Z ;\nZ : ;\n%%\n",
 }
@@ -458,6 +498,7 @@ def file_spec(rng, small=False):
     fs["only_prec"] = [t for t in sp["tokens"] if t not in fs["tags"] and t not in fs["nums"]
                        and any(t in ss for _, ss in sp["prec"]) and rng.random() < 0.5]
     fs["group_tokens"] = rng.random() < 0.5
+    fs["num_pad"] = {t: rng.randint(1, 2) for t in fs["nums"] if rng.random() < 0.3}      # zero-padded numerals: 0300, 005
     fs["late_tags"] = [t for t in terms if t in fs["tags"] and rng.random() < 0.3]
     fs["prologue"] = rng.choice(["package p\nimport \"fmt\"\n", "package p\n// c\nimport \"fmt\"\nvar x = 1 % 2\n", "\n package   q \n"])
     fs["union"] = rng.choice([" val int\n str string\n", "val int; str string", "\n\tval int\n\tstr struct{ a int }\n"])
@@ -511,7 +552,7 @@ def file_tokens(fs):
         for t in grp:
             add(t)
             if t in fs["nums"]:
-                add(str(fs["nums"][t]))
+                add(num_text(fs, t))
     for l in fs["lits"]:
         if l in fs["tags"] and l not in late:
             add("%token", True); add("<", True); add(fs["tags"][l], True); add(">", True); add(l, True)
